@@ -143,6 +143,14 @@ def oracle(pystog, case, res):
     for k in filled:
         if abs(o3[k] - (2.0 * yo[k] - 0.5 * o2[k])) > 1e-9 * (1 + 2 * abs(yo[k]) + abs(o2[k])):
             return "not linear in y"
+    # local: samples outside [xmin, xmax] (made huge here; two more appended well beyond either end) have no influence at all
+    far = np.where(inr, ys, 1e18 * np.where(np.arange(len(ys)) % 2 == 0, 1.0, -0.5))
+    xs5 = np.concatenate((xs, [xmax + 3.0 * xdiv, xmin - 3.0 * xdiv]))
+    ys5 = np.concatenate((far, [1e18, 3e17]))
+    _, o5 = call(pystog, xs5, ys5, xmin, xdiv, xmax)
+    for k in filled:
+        if not abs(o5[k] - yo[k]) <= 1e-9 * (1e-300 + abs(yo[k])) + 1e-12 * float(np.abs(ys[inr]).max()):
+            return "bin %d changes from %r to %r when samples outside [xmin, xmax] are changed" % (k, float(yo[k]), float(o5[k]))
     perm = np.argsort(-xs, kind="stable")
     _, o4 = call(pystog, xs[perm], ys[perm], xmin, xdiv, xmax)
     for k in filled:
